@@ -78,6 +78,33 @@ Theorem C04_loglik_grad_c4_log_domain (al : R) :
                      (mxv (invmx (GPNoise.kernel_matrix (Kc4 theta) noise))) s (fun _ => exp al) h).
 Proof. move=> H. exact: (loglik_grad_kernel_log_domain C4_entries_ok _ _ _ H). Qed.
 
+
+(* the same about the TRANSLATED loops of compute_grad_log_likelihood (Gen.GenAcq.LogLikGrad.grad_linear / grad_logdom; Props/C04_handir.v:
+   they equal the hand-written form); hyp = the hyperparameter vector the loop takes its log_scaling from (theta h = exp (hyp h)) *)
+Theorem C04_loglik_grad_c4_translated_loop (hyp : nat -> R) :
+  hparam_guard dim lcu theta h ->
+  locally (theta h) (fun t => let K := GPNoise.kernel_matrix (Kc4 (LogLikFull.upd theta h t)) noise in
+                              chol K *m (chol K)^T = K /\ is_trig_mx (chol K) /\ forall i, Rlt 0 (chol K i i)) ->
+  GPNoise.PT_K_inv_P (Kc4 theta) noise Pmx \in unitmx ->
+  is_derive (fun t => let Kk := Kc4 (LogLikFull.upd theta h t) in
+               LogLik.log_likelihood_value chol (fun L : 'M[R]_n => \sum_i ln (L i i)) (GPNoise.kernel_matrix Kk noise)
+                 (GPNoise.demeaned_y Kk noise y Pmx) (GPNoise.K_inv_demeaned_y Kk noise y Pmx) s) (theta h)
+    (LogLikGrad.grad_linear n nh (cvv (GPNoise.K_inv_demeaned_y (Kc4 theta) noise y Pmx)) Tc4 s hyp
+                            (mxv (invmx (GPNoise.kernel_matrix (Kc4 theta) noise))) h).
+Proof. move=> H. exact: (loglik_grad_kernel_linear_loop C4_entries_ok _ _ _ H). Qed.
+
+Theorem C04_loglik_grad_c4_log_domain_translated_loop (hyp : nat -> R) :
+  hparam_guard dim lcu theta h -> theta h = exp (hyp h) ->
+  locally (exp (hyp h)) (fun t => let K := GPNoise.kernel_matrix (Kc4 (LogLikFull.upd theta h t)) noise in
+                                  chol K *m (chol K)^T = K /\ is_trig_mx (chol K) /\ forall i, Rlt 0 (chol K i i)) ->
+  GPNoise.PT_K_inv_P (Kc4 theta) noise Pmx \in unitmx ->
+  is_derive (fun u => let Kk := Kc4 (LogLikFull.upd theta h (exp u)) in
+               LogLik.log_likelihood_value chol (fun L : 'M[R]_n => \sum_i ln (L i i)) (GPNoise.kernel_matrix Kk noise)
+                 (GPNoise.demeaned_y Kk noise y Pmx) (GPNoise.K_inv_demeaned_y Kk noise y Pmx) s) (hyp h)
+    (LogLikGrad.grad_logdom n nh (cvv (GPNoise.K_inv_demeaned_y (Kc4 theta) noise y Pmx)) Tc4 s hyp
+                            (mxv (invmx (GPNoise.kernel_matrix (Kc4 theta) noise))) h).
+Proof. move=> H. exact: (loglik_grad_kernel_logdom_loop C4_entries_ok _ _ _ H). Qed.
+
 (* ================================================================== C2RadialMatern *)
 Let Kc2 (th : nat -> R) : 'M[R]_n :=
   \matrix_(i, j) C2RadialMatern.kernel_matrix_sym dim xs (fun _ => 0%Re) (fun k => th (S k)) lsq lcu (th 0%N) i j.
@@ -100,4 +127,6 @@ Print Assumptions C04_loglik_grad_c4.
 Print Assumptions C04_loglik_grad_c4_zero_mean.
 Print Assumptions C04_loglik_grad_c4_nugget.
 Print Assumptions C04_loglik_grad_c4_log_domain.
+Print Assumptions C04_loglik_grad_c4_translated_loop.
+Print Assumptions C04_loglik_grad_c4_log_domain_translated_loop.
 Print Assumptions C04_loglik_grad_c2.
